@@ -141,10 +141,15 @@ def dispatch_rule(rep: Report, rule: str, fwd: FuncInfo, batched_marker) -> Opti
 
     ifs = [s for s in fwd.body if isinstance(s, ast.If)]
     disp = ifs[0] if ifs else None
-    if disp is None or not disp.orelse:
+    if disp is not None and not disp.orelse and disp.body and isinstance(disp.body[-1], ast.Return):
+        # guard-clause form: `if <single item>: return f(x)` followed by the per-item code
+        else_arm = fwd.body[fwd.body.index(disp) + 1 :]
+    else:
+        else_arm = disp.orelse if disp is not None else []
+    if disp is None or not else_arm:
         rep.undecided(rule, fwd, "batch dispatch", "no two-armed dispatch statement at the top of forward (code shape not recognised)", node=fwd.node)
         return None
-    in_body, in_else = batched_marker(disp.body), batched_marker(disp.orelse)
+    in_body, in_else = batched_marker(disp.body), batched_marker(else_arm)
     if in_body == in_else:
         rep.undecided(rule, fwd, f"batch dispatch: {unparse(disp.test)}", "cannot tell the per-item arm from the whole-tensor arm", node=disp)
         return disp
@@ -416,9 +421,32 @@ def rule_papr(repo: Repo, rep: Report) -> int:
     fwd = repo.method(ci, "forward")
     dispatch_rule(rep, "PAPR", fwd, batched_marker=lambda b: any((isinstance(c, ast.Call) and call_name(c) == "torch.vmap") or (isinstance(c, ast.Subscript) and unparse(c) == "x[i]") for s_ in b for c in ast.walk(s_)))
     n += 1
-    calls = [c for c in ast.walk(fwd.node) if isinstance(c, ast.Call) and attr_chain(c.func) == "self._apply_constraint_to_single_item"]
-    args0 = sorted({unparse(c.args[0]) for c in calls if c.args})
-    rep.expect(args0 == ["single_x", "x", "x[i]"], "PAPR", fwd, f"per-item application on {args0}", "vmap over the batch axis / per-row fallback / single item", "the PAPR constraint is no longer applied to each batch item separately", node=fwd.node)
+    ROUTINE = "self._apply_constraint_to_single_item"
+    wrappers = {}
+    for d_ in ast.walk(fwd.node):
+        if isinstance(d_, ast.FunctionDef) and d_ is not fwd.node and d_.args.args:
+            par_ = d_.args.args[0].arg
+            rets_ = [r_ for r_ in ast.walk(d_) if isinstance(r_, ast.Return) and isinstance(r_.value, ast.Call) and attr_chain(r_.value.func) == ROUTINE and r_.value.args and unparse(r_.value.args[0]) == par_]
+            if rets_:
+                wrappers[d_.name] = par_
+    applied = []  # argument texts the single-item routine is (directly or through a local wrapper) applied to
+    vmapped = False
+    for c in ast.walk(fwd.node):
+        if not isinstance(c, ast.Call):
+            continue
+        if attr_chain(c.func) == ROUTINE and c.args:
+            a_ = unparse(c.args[0])
+            if a_ not in wrappers.values():
+                applied.append(a_)
+        elif isinstance(c.func, ast.Name) and c.func.id in wrappers and c.args:
+            applied.append(unparse(c.args[0]))
+        elif isinstance(c.func, ast.Call) and call_name(c.func) == "torch.vmap" and c.func.args and isinstance(c.func.args[0], ast.Name) and c.func.args[0].id in wrappers and c.args and unparse(c.args[0]) == "x":
+            vmapped = True
+    vm_names = {s_.targets[0].id for s_ in ast.walk(fwd.node) if isinstance(s_, ast.Assign) and isinstance(s_.targets[0], ast.Name) and isinstance(s_.value, ast.Call) and call_name(s_.value) == "torch.vmap" and s_.value.args and isinstance(s_.value.args[0], ast.Name) and s_.value.args[0].id in wrappers}
+    vmapped = vmapped or any(isinstance(c, ast.Call) and isinstance(c.func, ast.Name) and c.func.id in vm_names and c.args and unparse(c.args[0]) == "x" for c in ast.walk(fwd.node))
+    applied = [a_ for a_ in applied if not (a_ == "x" and False)]
+    ok_items = set(applied) <= {"x", "x[i]"} and "x" in applied and ("x[i]" in applied or vmapped)
+    rep.expect(ok_items, "PAPR", fwd, f"per-item application on {sorted(set(applied))}{' + vmap over x' if vmapped else ''}", "vmap over the batch axis / per-row fallback / single item", "the PAPR constraint is no longer applied to each batch item separately", node=fwd.node)
     return n + 1
 
 
